@@ -30,7 +30,8 @@ CATCHES = {
 FRAMES = ["do", "c:a", "c:one", "c:list", "c:null", "c:ERROR", "c:var",
           "c:raises", "c:map", "all", "fin", "c:a+fin", "all+fin",
           "c:b|c:a", "c:a|all", "c:onef+fin", "func", "funcargs", "for",
-          "while", "for:set", "for:map", "for:str", "for:input"]
+          "while", "for:set", "for:map", "for:str", "for:input",
+          "cb:input", "cb:list", "eval:str", "eval:node"]
 # what the loop frames iterate (two iterations each); an input stream is a
 # sequence of lines
 ITERABLES = {
@@ -38,7 +39,12 @@ ITERABLES = {
     "for:set": ("set", [L(2), L(1)]),
     "for:map": ("map", [(L("k1"), L(1)), (L("k2"), L(2))]),
     "for:str": L("xy"),
-    "for:input": ("raw", "IO->str_input('l1\\nl2')", ["l1", "l2"]),
+    "for:input": ("raw", "str_input('l1\\nl2')", ["l1", "l2"]),
+}
+# a library function that calls back into user code once per line
+CALLBACK_SOURCES = {
+    "cb:input": ("raw", "str_input('l1\\nl2')", ["l1", "l2"]),
+    "cb:list": ("list", [L("l1"), L("l2")]),
 }
 INJ = {
     "err_a": ("error", L("a")), "err_b": ("error", L("b")),
@@ -49,15 +55,24 @@ INJ = {
     "undef": V("undefined_thing"),
     "div0": ("bin", "/", L(1), L(0)),
     "callraise": ("call", V("boom"), []),
+    # more runtime errors: their value must be the string 'ERROR' as well
+    "div0f": ("rawerr", "(1.5 / 0)"), "div0ff": ("rawerr", "(1 / 0.0)"),
+    "mod0": ("rawerr", "(1 % 0)"), "idx": ("rawerr", "[1][5]"),
+    "conv": ("rawerr", "int('x')"),
     # a failure that starts as a host exception inside a built-in
     "hostfail": ("rawerr", "('ab' * 1000000000000000000000)"),
     "return": ("return", L("R")),
     "break": ("break",), "continue": ("continue",),
 }
 INJ2 = ["err_a", "err_1", "return", "break", "err_list"]
-INJ1Q = ["err_a", "err_1f", "err_null", "undef", "callraise", "hostfail", "return",
+INJ1Q = ["err_a", "err_1f", "err_null", "undef", "callraise", "hostfail",
+         "div0f", "return",
          "break", "continue"]
 
+
+# depth-2 chains take every injection kind except the extra spellings of a
+# runtime error (those run on every depth-1 chain)
+INJ_CORE = [k for k in INJ if k not in ("div0ff", "mod0", "idx", "conv")]
 
 CONTROL = ("return", "break", "continue")
 
@@ -113,6 +128,23 @@ class Builder:
             return [("for", ["i%d" % i], "keys" if f == "for:map" else None,
                      ITERABLES[f], ("seq", [("log", V("i%d" % i))] + body)),
                     ("log", L("after-for%d" % i))]
+        if f in CALLBACK_SOURCES:
+            cb = ("fn", [("i%d" % i, None, False)],
+                  ("seq", [("log", V("i%d" % i))] + body +
+                   [L("cbret%d" % i)]))
+            return [("log", ("list", [L("lines%d" % i),
+                                      ("call", V("process_lines"),
+                                       [("pos", CALLBACK_SOURCES[f]),
+                                        ("pos", cb)])])),
+                    ("log", L("after-cb%d" % i))]
+        if f in ("eval:str", "eval:node"):
+            # the body runs through eval (of its source text / of the parsed
+            # node) in the current scope
+            node = "evalstr" if f == "eval:str" else "evalnode"
+            return [("log", ("list", [L("evalv%d" % i),
+                                      (node, ("seq", body +
+                                              [L("evret%d" % i)]))])),
+                    ("log", L("after-eval%d" % i))]
         if f == "while":
             n = "n%d" % i
             return [("def", n, L(0)),
@@ -140,7 +172,8 @@ class Builder:
         return [("block", body, catches, fin)]
 
     def program(self):
-        stmts = [("raw", "require IO", None), ("def", "cv", L("a")),
+        stmts = [("raw", "require IO import [process_lines, str_input]",
+                  None), ("def", "cv", L("a")),
                  ("def", "boom", ("fn", [], ("error", L("a"))), True)]
         stmts += self.frame(0)
         stmts.append(("log", L("end")))
@@ -153,12 +186,12 @@ def count_slots(frames):
     return b.slot
 
 
-def check(agg, frames, injections):
+def check(agg, frames, injections, both=True):
     """programs with control-statement injections keep every block in
     statement position (a control statement inside a block that is used as
     a sub-expression is outside the statements); all others are run in
     both forms"""
-    if any(name in CONTROL for _, name in injections):
+    if any(name in CONTROL for _, name in injections) or not both:
         _check(agg, frames, injections, False)
     else:
         _check(agg, frames, injections, False)
@@ -211,10 +244,14 @@ def explore(chunk):
         n = count_slots(frames)
         check(agg, frames, [])
         names = list(INJ) if chunk["full1"] is True else \
-            (INJ1Q if chunk["full1"] == "q" else INJ2)
+            (INJ1Q if chunk["full1"] == "q" else
+             (INJ_CORE if chunk["full1"] == "core" else INJ2))
         for s in range(n):
             for name in names:
-                check(agg, frames, [(s, name)])
+                # the broad depth-2 layer of the quick tier observes block
+                # values only where an error value decides them
+                check(agg, frames, [(s, name)],
+                      both=chunk["full1"] != "q" or name.startswith("err"))
         if chunk["two"]:
             for s1 in range(n):
                 for s2 in range(s1, n):
@@ -248,11 +285,17 @@ def main(tier, seed):
         jobs.append({"skeletons": c, "full1": True, "two": True})
     if tier == "quick":
         core2 = ["c:a", "all", "c:a+fin", "c:b|c:a", "funcargs", "for"]
+        # the loop frames over other iterables and the callback frames are
+        # paired with the core frame kinds only
+        late = FRAMES[FRAMES.index("for:set"):]
+        sk2 = [(a, b) for (a, b) in sk2
+               if (a not in late and b not in late) or
+               (a in late and b in core2) or (b in late and a in core2)]
         for c in core.chunked(sk2, core.NPROC * 4):
             jobs.append({"skeletons": c, "full1": "q", "two": False})
         for c in core.chunked([(a, b) for a in core2 for b in core2],
                               core.NPROC * 2):
-            jobs.append({"skeletons": c, "full1": True, "two": True})
+            jobs.append({"skeletons": c, "full1": "core", "two": True})
     else:
         for c in core.chunked(sk2, core.NPROC * 8):
             jobs.append({"skeletons": c, "full1": True, "two": True})
